@@ -244,12 +244,32 @@ def _int_bounds_atom(pc: List[Term], v: Term) -> Tuple[Optional[int], Optional[i
 
 
 def flat_pc(pc: List[Term]) -> List[Term]:
+    """The conjuncts of a path condition, closed under unit resolution: a disjunction all of whose alternatives but one
+    are contradicted by the other conjuncts contributes that alternative ((not p or q) and p gives q)."""
+    from .interp import neg
+
     out: List[Term] = []
-    for g in pc:
+
+    def add(g: Term) -> None:
         if isinstance(g, tuple) and g and g[0] == "and":
-            out.extend(flat_pc(list(g[1:])))
-        else:
+            for x in g[1:]:
+                add(x)
+        elif g not in out:
             out.append(g)
+
+    for g in pc:
+        add(g)
+    for _ in range(6):
+        changed = False
+        for g in list(out):
+            if isinstance(g, tuple) and g and g[0] == "or":
+                live = [d for d in g[1:] if neg(d) not in out and not (isinstance(d, tuple) and d[:1] == ("and",) and any(neg(x) in out for x in d[1:]))]
+                if len(live) == 1 and live[0] not in out:
+                    n0 = len(out)
+                    add(live[0])
+                    changed = changed or len(out) != n0
+        if not changed:
+            break
     return out
 
 
